@@ -13,7 +13,7 @@
 EXTENDS Device, SequencesExt, Json
 CONSTANTS MAXLEN, EMIT, SIM
 
-Hdr == [ncomp |-> 2, deps |-> <<>>, integ |-> <<<<0, 0>>>>, lens |-> <<<<0, 8>>, <<1, 9>>>>]
+Hdr == [ncomp |-> 2, deps |-> <<>>, integ |-> <<<<0, 0>>>>, lens |-> <<<<0, 8>>, <<1, 9>>>>, mf |-> <<>>]
 E(code, idx, ps, uri, dg, size, src, cval) ==
   [ev |-> "Cmd", code |-> code, idx |-> idx, ps |-> ps, uri |-> uri, dg |-> dg, size |-> size, src |-> src, cval |-> cval]
 Cmd0(code) == E(code, <<>>, <<>>, -1, -1, -1, -1, -1)
